@@ -446,3 +446,77 @@ def proof_stage(res, pid, cone_files, gen_names, gen_status):
     ]
     res.cov["theorems"] = thms
     return {"ok": not broken, "broken": broken}
+
+
+# ------------------------------------------------------------------ standard flow of a translated-model check
+def standard_run(res, pid, cone, gen, imports, build_cases, rule, assumptions, extra_specs=None):
+    """build_cases(res) -> list of (function, input, coq_expr|None, python_outcome, oracle_verdict|None).
+    extra_specs(res) -> list of (label, input, coq_expr, expected_string): specification-side
+    cross-checks (e.g. Python oracle vs Gallina spec)."""
+    with Lock():
+        gate = grep_gate()
+        status = regen()
+        pr = proof_stage(res, pid, cone, gen, status)
+        if gate:
+            pr["ok"] = False
+            pr["broken"].append({"kind": "gate", "error": gate})
+        cases = build_cases(res)
+        specs = extra_specs(res) if extra_specs else []
+        mismatches = []
+        evaluated = 0
+        if all(status.get(g) is None for g in gen):
+            vos = ["theories/Base/Show.vo"] + ["theories/%s.vo" % i.replace(".", "/") for i in imports]
+            ok, log = make(vos)
+            if not ok:
+                pr["ok"] = False
+                pr["broken"].append({"kind": "gen-compile", "error": first_error(log)})
+            else:
+                try:
+                    todo = [c for c in cases if c[2] is not None]
+                    outs = eval_strings(imports, [c[2] for c in todo], pid + "_diff")
+                    evaluated = len(outs)
+                    for c, o in zip(todo, outs):
+                        if o != c[3]:
+                            mismatches.append({"function": c[0], "input": c[1], "python": c[3], "coq_model": o})
+                    if specs:
+                        souts = eval_strings(imports, [c[2] for c in specs], pid + "_spec")
+                        for c, o in zip(specs, souts):
+                            if o != c[3]:
+                                mismatches.append({"function": c[0] + " (oracle vs specification)", "input": c[1],
+                                                   "python": c[3], "coq_model": o})
+                except CaseEvalError as ex:
+                    pr["ok"] = False
+                    pr["broken"].append({"kind": "case-eval", "error": str(ex)[-1500:]})
+    oracle_fail = [{"function": c[0], "input": c[1], "observed": c[3], "why": c[4]} for c in cases if c[4]]
+    decide(res, pr, mismatches, oracle_fail, cases, evaluated, rule, assumptions)
+    return pr, mismatches, oracle_fail
+
+
+def decide(res, pr, mismatches, oracle_fail, cases, evaluated, rule, assumptions, known_filter=None):
+    res.cov["evaluations"] = len(cases)
+    res.cov["distinct_nontrivial"] = len({json.dumps([c[0], c[1]], sort_keys=True, default=str) for c in cases
+                                          if not str(c[3]).startswith("Err")})
+    res.cov["rule"] = rule
+    res.cov["translator_diff_cases"] = evaluated
+    res.cov["translator_diff_mismatches"] = len(mismatches)
+    res.cov["oracle_failures"] = len(oracle_fail)
+    hist = {}
+    errs = {}
+    for c in cases:
+        hist[c[0]] = hist.get(c[0], 0) + 1
+        if str(c[3]).startswith("Err"):
+            errs[c[3]] = errs.get(c[3], 0) + 1
+    res.cov["input_distribution"] = hist
+    res.cov["error_kinds"] = errs
+    res.cov["samples"] = [{"function": c[0], "input": c[1], "outcome": c[3]} for c in cases[:3] + cases[-2:]]
+    res.assumptions = assumptions
+    tie_broken = (not pr["ok"]) or bool(mismatches)
+    if not tie_broken and not oracle_fail:
+        return
+    if oracle_fail:
+        f = min(oracle_fail, key=lambda x: len(json.dumps(x["input"], default=str)))
+        res.violation("implementation violates the property's oracle on a concrete input", {
+            "kind": "oracle", "case": f, "count": len(oracle_fail), "broken_tie": pr["broken"], "diff": mismatches[:3]})
+        return
+    res.violation("proof or model/code correspondence no longer checks and no failing input was found", {
+        "kind": "tie", "broken": pr["broken"], "diff": mismatches[:5]}, found_input=False)
